@@ -100,6 +100,27 @@ func c04(r *Report) {
 	}
 
 	r.Guard("C04.R1", "bytes that arrived with the CONNECT request are relayed: the client-to-target copy reads the session's buffered reader, after the 200 was flushed", func() {
+		// what follows the request head in the client's buffer belongs to the tunnel (or to the
+		// next request): the request reader takes nothing out of the buffer besides the request
+		// http.ReadRequest parses
+		if rd := r.Use("", "Proxy.readRequest"); rd != nil {
+			consumers := map[string]bool{"Discard": true, "Read": true, "ReadByte": true, "ReadBytes": true, "ReadLine": true, "ReadRune": true, "ReadSlice": true, "ReadString": true, "WriteTo": true, "Reset": true}
+			bad := ""
+			var pos token.Pos = rd.Pos()
+			for _, f := range append([]*ssa.Function{rd}, rd.AnonFuncs...) {
+				for _, c := range calls(f) {
+					sc := c.Common().StaticCallee()
+					if sc == nil || sc.Signature.Recv() == nil || sc.Signature.Recv().Type().String() != "*bufio.Reader" {
+						continue
+					}
+					if consumers[sc.Name()] {
+						bad = sc.Name()
+						pos = c.Pos()
+					}
+				}
+			}
+			r.Decide("callgraph", "(*M.Proxy).readRequest takes nothing but the request out of the client's buffer", bad == "", "no consuming bufio.Reader call besides http.ReadRequest", "the request reader consumes bytes after the request head (bufio.Reader."+bad+"): when they are the first bytes of a CONNECT tunnel (or of a pipelined request) they never reach their destination", pos)
+		}
 		if len(cops) != 2 {
 			r.Fail("path", "(*M.Proxy).handleConnectRequest: two tunnel copiers", fmt.Sprintf("found %d goroutines running a single io.Copy, want 2", len(cops)), nil, hcr.Pos())
 			return
@@ -458,7 +479,13 @@ func c04(r *Report) {
 		}
 	})
 
-	r.Guard("C04.R5", "one direction ending can end the other (end-of-stream propagation exists)", func() { tunnelEOSRule(r, hcr, cops) })
+	r.Guard("C04.R5", "one direction ending can end the other (end-of-stream propagation exists)", func() {
+		tunnelEOSRule(r, hcr, cops)
+		// ... by end-of-stream, not by a timer: no deadline is armed on a tunnel end
+		if lp := r.Use("", "Proxy.handleLoop"); lp != nil {
+			deadlineSitesRule(r, lp)
+		}
+	})
 
 	r.Guard("C04.R6", "no unflushed buffer sits between the two sockets", func() {
 		for k, c := range cops {
@@ -607,6 +634,17 @@ func tunnelEOSRule(r *Report, hcr *ssa.Function, cops []tunnelCopier) {
 			}
 		}
 		r.Decide("path", fnName(c.Fn)+": a destination that can half-close is half-closed", okv != nil && half && full, "CloseWrite on the ok edge of the assertion, Close only on the other edge", "the copier closes the destination outright although it supports CloseWrite (or never calls CloseWrite): the opposite direction of the tunnel dies with it and the peer that half-closed after sending never receives the answer", ta.Pos())
+		break
+	}
+	// every copier reports that it is done, however its copy ended: the handler waits for both
+	for _, c := range cops {
+		gf := G(c.Fn)
+		isDone := func(i ssa.Instruction) bool {
+			s, ok := i.(*ssa.Send)
+			return ok && len(c.Fn.Params) > 2 && (s.Chan == ssa.Value(c.Fn.Params[2]) || isParamVal(s.Chan, c.Fn.Params[2]))
+		}
+		p := gf.PathTo([]ssa.Instruction{gf.Entry()}, true, isDone, isReturn)
+		r.Decide("path", fnName(c.Fn)+": the copier signals its end on every path", p == nil, "a send on the done channel lies on every path to the return", "a copier can return without signalling (an early return on a copy error): the handler waits for it for ever, the connection is never released and Proxy.Close never returns", c.Fn.Pos())
 		break
 	}
 	r.Decide("path", "(*M.Proxy).handleConnectRequest: a finished copier wakes the opposite direction", found, "a close / half-close / deadline call follows the end of a copy before the join completes", "nothing between the end of one copy and the join can end the other copy: a half-closed tunnel stalls until the idle deadline", hcr.Pos())
